@@ -515,8 +515,9 @@ def aliasing(rep, prog, rule):
         for c in f.calls():
             if c.name.endswith("UnsafeImageMut::<'a, V>::new"):
                 news.append((f, c))
-    allowed = ("image_view::ImageViewMut::split_by_height_mut",
-               "image_view::ImageViewMut::split_by_width_mut")
+    allowed = tuple(prog.fn_by_name(n).name for n in
+                    ("image_view::ImageViewMut::split_by_height_mut",
+                     "image_view::ImageViewMut::split_by_width_mut"))
     rep.floor(rule, "UnsafeImageMut::new call sites", len(news), 2)
     for f, c in news:
         if f.name in allowed:
